@@ -554,6 +554,8 @@ class World:
         for p in r._peers.values():
             if getattr(p.neighbor, 'range_size', 1) > 1:
                 continue  # the definition of an address range never has a session of its own: its queue is never sent
+            if p.proto is None:
+                continue  # no transport at all (a passive neighbor whose peer is away, a peer between two attempts): nothing can drain
             if p.neighbor.rib is not None and p.neighbor.rib.outgoing.pending():
                 return False
         for h in self.procs.helpers.values():
